@@ -365,21 +365,8 @@ Definition match_placeholder_shown (p : path) : bool :=
 Definition match_contains_one (p : path) (c : scontains) (own : list str) (full : str) : bool :=
   if ct_own c then existsb (fun tx => existsb (fun o => substrb tx o) own) (ct_text c)
   else existsb (fun tx => substrb tx full) (ct_text c).
-(* `content` is computed once, from the FIRST item's own flag *)
 Definition match_contains (p : path) (l : list scontains) : bool :=
-  match l with
-  | [] => true
-  | c0 :: _ =>
-    let own := if ct_own c0 then get_own_text p (c_is_html cx) else [] in
-    let full := if ct_own c0 then [] else get_text p (c_is_html cx) in
-    (* a later item with a different `own` flag reads the same `content` object:
-       own over a str iterates characters; not-own over a list tests list membership *)
-    forallb (fun c =>
-               if Bool.eqb (ct_own c) (ct_own c0) then match_contains_one p c own full
-               else if ct_own c
-                    then existsb (fun tx => existsb (fun ch => substrb tx [ch]) full) (ct_text c)
-                    else existsb (fun tx => existsb (str_eqb tx) own) (ct_text c)) l
-  end.
+  forallb (fun c => match_contains_one p c (get_own_text p (c_is_html cx)) (get_text p (c_is_html cx))) l.
 
 (* ------------------------------------------------------------------ direction *)
 Definition dir_of (v : str) : option N :=      (* DIR_MAP.get *)
